@@ -2,6 +2,7 @@ import SodiumVerif.Model.GcScript
 import SodiumVerif.Model.SchedScript
 import SodiumVerif.Spec.Script
 import SodiumVerif.Model.TxnScript
+import SodiumVerif.Model.Conc
 
 open SodiumVerif
 
@@ -25,6 +26,27 @@ partial def txnLoop (h : IO.FS.Stream) (out : IO.FS.Stream) (s : TxnScript.S) : 
   let (s', o) := TxnScript.step s line
   out.putStrLn o
   txnLoop h out s'
+
+def concLine (line : String) : String :=
+  let parts := (line.splitOn "|").map (·.trimAscii.toString)
+  if parts.length < 3 then "bad-op" else
+  let head := (parts[0]!.splitOn " ").filter (· ≠ "")
+  let nsinks := (head.getD 1 "1").toNat?.getD 1
+  let parseProg (p : String) : List (Nat × Int) :=
+    (p.splitOn ",").filterMap fun sv =>
+      match (sv.trimAscii.toString.splitOn ":") with
+      | [s, v] => match s.toNat?, v.toInt? with | some s, some v => some (s, v) | _, _ => none
+      | _ => none
+  let progs := ((parts.drop 1).dropLast).map parseProg
+  let sched := (parts.getLast!.splitOn ",").filterMap fun x => x.trimAscii.toString.toNat?
+  Conc.showRes (Conc.run nsinks progs sched)
+
+partial def concLoop (h : IO.FS.Stream) (out : IO.FS.Stream) : IO Unit := do
+  let line ← h.getLine
+  if line.isEmpty then return ()
+  let l := line.trimAscii.toString
+  out.putStrLn (if l == "---" then "---" else if l.startsWith "conc" then concLine l else "bad-op")
+  concLoop h out
 
 partial def readAll (h : IO.FS.Stream) (acc : Array String) : IO (Array String) := do
   let line ← h.getLine
@@ -50,4 +72,5 @@ def main (args : List String) : IO UInt32 := do
   | ["node"] => nodeLoop stdin stdout {}; return 0
   | ["spec"] => specMain stdin stdout; return 0
   | ["txn"] => txnLoop stdin stdout {}; return 0
+  | ["conc"] => concLoop stdin stdout; return 0
   | _ => IO.eprintln "usage: driver gc|node|api|spec < script"; return 2
